@@ -367,4 +367,19 @@ theorem viewIs_of_rows {r : Cat} {p sn : String} {is : List Inst} (wf : WF r) (o
   · intro i hi
     exact (csn_ok hcsn).2 _ (present i hi).2.1 rfl (ok.inst i hi).2.2
 
+/-! ### refuting the view equation on a concrete catalog -/
+
+deriving instance DecidableEq for Except
+
+/-- a check in the view that no received check accounts for refutes `ViewIs` -/
+theorem not_viewIs_of_stale {r : Cat} {p sn : String} {is : List Inst} {L : List CSN} {x : CSN} {k : Chk}
+    (hL : csn r p sn = .ok L) (hx : x ∈ L) (hk : k ∈ x.chks) (hno : ∀ i ∈ is, ∀ d ∈ i.chks, k ≠ chkRow p d) :
+    ¬ ViewIs r p sn is := by
+  rintro ⟨L', hL', h1, _⟩
+  rw [hL] at hL'; cases hL'
+  obtain ⟨i, hi, _, _, hc⟩ := h1 x hx
+  obtain ⟨d, hd, e⟩ := (hc k).mp hk
+  exact hno i hi d hd e
+
+
 end CV.Peer
